@@ -281,7 +281,7 @@ pub fn run(rep: &mut Report) {
     rep.rule = "epoch lattice EL(scale) (within +-10 500 years, windows at every scale's zero, J2000, UNIX zero, leap seconds) x 9 scales x ~35 accessors: duration-valued views exact against count + derived constant (MJD(1900-01-01) = 15 020 d, JD = MJD + 2 400 000.5 d, J2000 = 3 155 716 800 s, UNIX zero = 25 567 d, UTC via the leap table), float views within 8 ulp of the exact rational (of the value or of one second's worth); constructors from_mjd/jde/unix on the float lattice within the span, read back through the same view. Non-trivial = non-TAI scale or negative count.".into();
     rep.assumptions = vec!["views of ET/TDB source epochs take the real conversion to TAI as the instant (owned by C07); JDE in ET/TDB is checked as an exact affine function of the real ET/TDB duration".into()];
     for ts in SCALES {
-        let mut el = lattice::el(ts, if deep { 131_072 } else { 64 }, Some((-2, 40)));
+        let mut el = lattice::el(ts, if deep { 131_072 } else { 8_192 }, Some((-2, 40)));
         // every view's own origin is a boundary of that view (the float is small there, so a few ulps are a tight bound):
         // JD 0, MJD 0, UNIX 0, J2000 and 1900, each with offsets of every magnitude and with sub-unit parts
         let own = scales::zero_tai(ts).unwrap_or(if ts == TimeScale::UTC { 0 } else { J2000_S - 32_184_000_000 });
